@@ -244,7 +244,8 @@ class SymExec:
             p.heap[base[1]][pr[1]['i']] = val
             return
         if len(pr) == 1 and pr[0]['k'] == 'deref' and isinstance(base, tuple) and base[0] == 'slot1':
-            p.writes.append((base[1], base[2], base[2] + 1, ('lit', bytes([val.c])) if isinstance(val, Aff) and val.is_const() else ('unknown',), line))
+            src = ('lit', bytes([val.c])) if isinstance(val, Aff) and val.is_const() else (val if isinstance(val, tuple) and val and val[0] == 'rd' else ('unknown',))
+            p.writes.append((base[1], base[2], base[2] + 1, src, line))
             return
         if len(pr) == 1 and pr[0]['k'] == 'field' and isinstance(base, tuple) and base[0] == 'tuple':
             items = list(base[1])
@@ -285,6 +286,9 @@ class SymExec:
                 if li is not None:
                     cnt = p.visits.get(key, 0)
                     if cnt >= 1:
+                        if getattr(self, 'keep_loopback', False):
+                            p.loopback = True
+                            self.results.append(p)
                         return           # back edge: the havocked header state already covers every later iteration
                     p.visits[key] = cnt + 1
                     for l in li[1]:
